@@ -1609,6 +1609,13 @@ fn cases_history(prop: &str, sc: &mut Scratch, out: &mut Out, mode: Mode, ss: &[
         t.add_rec(&WalRecord::TxCommit { tx_id: TxId::new(tx) });
         t.add_rec(&WalRecord::Checkpoint { tx_id: TxId::new(tx) });
     }
+    // delete_node logs a DeleteEdge for every incident edge: any of the history's edges can be one
+    if ss.iter().any(|s| s.0.iter().any(|o| matches!(o, Op::DeleteNode(_)))) {
+        let ne = ss.iter().flat_map(|s| s.0.iter()).filter(|o| matches!(o, Op::CreateEdge(..) | Op::CreateEdgeProps(..))).count() as u64;
+        for e in 0..ne {
+            t.add_rec(&WalRecord::DeleteEdge { id: EdgeId::new(e) });
+        }
+    }
     let tt = t.term();
     let cfg = cfg_term(mode, ENGINE_MAX);
     tags.push(mode.tag());
